@@ -5,3 +5,12 @@ mod entity;
 mod chunk;
 mod layout;
 mod bit;
+
+/// `(place mask, visit mask)` of the bucket range `start..=end`
+#[cfg(feature = "verif")]
+pub fn verif_masks(start: u32, end: u32) -> (u64, u64) {
+    (
+        heap::Heap32::range_to_place_mask(start, end),
+        heap::Heap32::range_to_intersect_mask(start, end),
+    )
+}
